@@ -29,8 +29,26 @@ import (
 
 type mem int64
 
+// cmpMode selects what CompareTo returns (collections.Comparable promises only the sign):
+// 0, 1: -1 / 0 / +1;  2: the difference of the ids (any magnitude);  3: the extremes of int
+// (math.MinInt for "less", whose negation overflows, math.MaxInt for "greater").
+// It is derived from the case's seed (seed & 3), so a replay uses the same comparator.
+var cmpMode int
+
 func (m mem) CompareTo(o collections.Comparable) int {
 	r := o.(mem)
+	switch cmpMode {
+	case 2:
+		return int(m - r) // ids are small: no overflow
+	case 3:
+		switch {
+		case m < r:
+			return math.MinInt
+		case m > r:
+			return math.MaxInt
+		}
+		return 0
+	}
 	switch {
 	case m < r:
 		return -1
@@ -81,6 +99,7 @@ func probe(s *zset.SortedSet) Sx {
 
 func run(in Sx) Sx {
 	rand.Seed(in.At(0).Int64())
+	cmpMode = int(in.At(0).Int64() & 3)
 	ops := in.At(1)
 	s := zset.NewSortedSet()
 	res := make([]Sx, 0, ops.Len())
@@ -247,9 +266,29 @@ func (g *zgen) scoreRange() (int64, int64) {
 	return a, b
 }
 
+// intExtremes: the limits of int and their neighbours (rank arguments)
+var intExtremes = []int64{math.MaxInt64, math.MaxInt64 - 1, math.MinInt64, math.MinInt64 + 1}
+
+// a (start, end) pair of rank arguments; now and then an ordinary start with an end at a limit of int
+// (or the other way round)
+func (g *zgen) rankPair() (int64, int64) {
+	r := g.rng
+	a, b := g.rankIdx(), g.rankIdx()
+	switch r.Intn(8) {
+	case 0:
+		b = intExtremes[r.Intn(len(intExtremes))]
+	case 1:
+		a = intExtremes[r.Intn(len(intExtremes))]
+	}
+	return a, b
+}
+
 func (g *zgen) rankIdx() int64 {
 	r := g.rng
 	n := int64(len(g.shadow))
+	if r.Chance(1, 9) {
+		return intExtremes[r.Intn(len(intExtremes))]
+	}
 	switch r.Intn(10) {
 	case 0:
 		return 0
@@ -306,7 +345,7 @@ func (g *zgen) smallQuery() Sx {
 		return Ints(4, a, b)
 	case 6:
 		a := g.rankIdx()
-		return Ints(7, a, a+int64(r.Intn(4)), b2i(r.Bool()))
+		return Ints(7, a, satAdd(a, int64(r.Intn(4))), b2i(r.Bool()))
 	}
 	a, _ := g.scoreRange()
 	return Ints(8, a, a, b2i(r.Bool()))
@@ -409,7 +448,7 @@ func (g *zgen) mixed1(allowBig bool) {
 		}
 	case 6:
 		if r.Chance(1, 2) { // keep the set from emptying too fast
-			a, b := g.rankIdx(), g.rankIdx()
+			a, b := g.rankPair()
 			g.add(Ints(3, a, b))
 			g.shadowRemoveRanks(a, b)
 			if tie {
@@ -433,10 +472,11 @@ func (g *zgen) mixed1(allowBig bool) {
 		g.add(Ints(6, g.member()))
 	case 13, 14, 15:
 		if allowBig || len(g.shadow) < 40 {
-			g.add(Ints(7, g.rankIdx(), g.rankIdx(), b2i(r.Bool())))
+			a, b := g.rankPair()
+			g.add(Ints(7, a, b, b2i(r.Bool())))
 		} else {
 			a := g.rankIdx()
-			g.add(Ints(7, a, a+int64(r.Intn(6)), b2i(r.Bool())))
+			g.add(Ints(7, a, satAdd(a, int64(r.Intn(6))), b2i(r.Bool())))
 		}
 		if tie {
 			g.tieOps++
@@ -568,6 +608,7 @@ func gen(a Args, out *Out) {
 		for k := 0; k < counts[kind]; k++ {
 			in, nontrivial := genHistory(r, kind)
 			obs := run(in)
+			out.Count([]string{"comparator:-1/0/+1", "comparator:-1/0/+1", "comparator:id-difference", "comparator:MinInt/0/MaxInt"}[in.At(0).Int64()&3])
 			out.Case(kind, nontrivial, in, obs)
 			ops := in.At(1)
 			for i := 0; i < ops.Len(); i++ {
@@ -576,6 +617,14 @@ func gen(a Args, out *Out) {
 					for _, v := range []int64{ops.At(i).At(1).Int64(), ops.At(i).At(2).Int64()} {
 						if v == math.MaxInt64 || v == math.MinInt64 {
 							out.Count("score-range-op-with-int64-limit-bound")
+							break
+						}
+					}
+				}
+				if c := ops.At(i).At(0).AsInt(); c == 3 || c == 7 {
+					for _, v := range []int64{ops.At(i).At(1).Int64(), ops.At(i).At(2).Int64()} {
+						if v >= math.MaxInt64-1 || v <= math.MinInt64+1 {
+							out.Count("rank-range-op-with-int-limit-argument")
 							break
 						}
 					}
